@@ -5,13 +5,18 @@
   `BlockState::generate_caches`) and through `get_lines`; the theorems below are about those two, for
   ALL texts (no size bounds).
 
-  Property theorems:
-    `split_offsets_valid`, `offsets_increasing`, `split_views`, `views_no_terminator`,
-    `split_crlf`, `split_cr`, `split_final_newline`,
-    `get_lines_lf`, `get_lines_no_cr`, `get_lines_of_views`, `get_lines_total`,
-  helper facts used by C05 / C06 / C11:
-    `calc_right_bounds`, `cut_zero`, `cut_prefix`, `cut_full_indent`, `cut_four`,
-    `find_indent_total`, `find_indent_bounds`.
+  Property theorems (all in namespace `MdIt.Lines`):
+    table      `split_offsets_valid` (+ `offsets_increasing`), `split_views`, `views_no_terminator`,
+               `split_crlf`, `split_cr`, `split_final_newline`
+    get_lines  `get_lines_lf`, `get_lines_no_cr`, `get_lines_of_views`, `get_lines_total`,
+               `get_lines_faithful` (content + mapping), `is_empty_of_view`,
+               on the parser's own table: `get_lines_split`, `get_lines_split_no_cr`,
+               `get_lines_same_views`, `get_lines_crlf`, `get_lines_cr`, `get_lines_final_newline`
+    helpers    `calc_right_bounds` (`calc_right_le`, `calc_right_onBoundary`, `cut_right_total`), `cut_zero`,
+               `cut_prefix`, `cut_full_indent`, `cut_four` (`cut_four_text`), `rfindAndCount_tab_mod`,
+               `find_indent_spec`, `find_indent_total`, `find_indent_bounds`
+  and, as `example`s, every unit test at the bottom of `utils.rs`.
+  OPEN (end of file): the composition over whole documents (`render_le_invariant`, Layer 3).
 -/
 import MdIt.Lemmas.Lines
 
@@ -629,15 +634,15 @@ theorem getLinesGo_full (src : List Char) (offs : List LineOffset) (indent : Nat
     | nil =>
       simp only [List.length_nil, Nat.add_zero] at ih ⊢
       rw [ih (line + 1) _ _ hv']
-      cases keep <;> split <;>
-        simp [joinLines, viewPiece, mapOf, List.append_assoc, byteLen_replicate_space, *]
+      by_cases hn : 0 < (calcRightWs v.1 (v.2.2 - usizeAsI32 indent)).1 <;> cases keep <;>
+        simp [hn, joinLines, viewPiece, mapOf, List.append_assoc, byteLen_replicate_space]
     | cons ov2 ovs'' =>
       rw [ih (line + 1) _ _ hv']
       have h1 : (decide (line + 1 < line + 1 + (ov2 :: ovs'').length) || keep) = true := by simp
       simp only [h1, if_true]
-      split <;>
-        simp [joinLines, viewPiece, mapOf, List.append_assoc, byteLen_replicate_space,
-          show '\n'.utf8Size = 1 by decide, Nat.add_assoc, *]
+      by_cases hn : 0 < (calcRightWs v.1 (v.2.2 - usizeAsI32 indent)).1 <;>
+        simp [hn, joinLines, viewPiece, mapOf, List.append_assoc, byteLen_replicate_space,
+          show '\n'.utf8Size = 1 by decide, Nat.add_assoc]
 
 theorem faithful_of_join (src : List Char) (indent : Nat) (keep : Bool)
     (ovs : List (LineOffset × (List Char × List Char × Int)))
@@ -698,6 +703,13 @@ theorem get_lines_faithful (src : List Char) (offs : List LineOffset) (begin_ in
       exact (hv j hj).2
     have := faithful_of_join src indent keep ovs hs []
     simpa using this
+
+/-- `"- a\n\n \tb"`, line 2 at indent 2 (the list item's content column): the tab is split, the two
+    virtual spaces and the `b` after them all map to source byte 7 (the `b`), inside the 8-byte input -/
+example : getLines ['-', ' ', 'a', '\n', '\n', ' ', '\t', 'b']
+      (splitLines ['-', ' ', 'a', '\n', '\n', ' ', '\t', 'b']) 2 3 2 false
+    = .ok ([' ', ' ', 'b'], mapOf 2 0 [(⟨5, 8, 7, 4⟩, ([' ', '\t'], ['b'], 4))]) := by decide +kernel
+example : mapOf 2 0 [(⟨5, 8, 7, 4⟩, ([' ', '\t'], ['b'], 4))] = [(0, 7), (2, 7)] := by decide
 
 theorem mem_joinLines {keep : Bool} {ps : List (List Char)} {c : Char} (h : c ∈ joinLines keep ps) :
     c = '\n' ∨ ∃ p ∈ ps, c ∈ p := by
